@@ -1,9 +1,9 @@
 #!/bin/bash
 # usage: tools/wave.sh <Cxx> [checks...]  -- copy agent deliverables out of the worktree, confirm each, run the quick check(s) on each
 p="$1"; shift; checks="${@:-$p}"
-mkdir -p /tmp/mw/out/$p
-[ -d /tmp/mw/$p/_out ] && cp -rn /tmp/mw/$p/_out/* /tmp/mw/out/$p/ 2>/dev/null
-for d in /tmp/mw/out/$p/*/; do
+O=${OUT:-/tmp/mw/out}; mkdir -p $O/$p
+[ -d /tmp/mw/$p/_out ] && cp -rn /tmp/mw/$p/_out/* $O/$p/ 2>/dev/null
+for d in $O/$p/*/; do
   [ -f "$d/patch.diff" ] || continue
   echo "=== $p $(basename $d)"
   /verif/tools/confirm_mutant.sh "$d" /tmp/mw/$p 2>&1 | tail -2
